@@ -54,7 +54,8 @@ TStep ==
         /\ LET F(S) == CmpDirect(S, RE(Ev.reg), Ev.mn, Ev.x) IN Judge(F, Ev.out)
         /\ UNCHANGED regs
      \/ /\ Ev.ev = "et_look" /\ regs[Ev.reg].ok /\ DOMAIN regs[Ev.reg].map # {} /\ OwnOK(RE(Ev.reg), Ev.key)
-        /\ Pure(TypeLookup(RE(Ev.reg), Ev.key), Ev.out) /\ UNCHANGED regs
+        /\ LET F(S) == ViaCopy(S, RE(Ev.reg), TypeLookup(RE(Ev.reg), Ev.key)) IN Judge(F, Ev.out)
+        /\ UNCHANGED regs
      \/ /\ Ev.ev = "ar" /\ Has(Ev.reg, Ev.mn) /\ OwnOK(RE(Ev.reg), Ev.x) /\ Ev.op \in BinOps
         /\ LET F(S) == Arith(S, RE(Ev.reg), Ev.mn, Ev.op, Ev.side, Ev.x) IN Judge(F, Ev.out)
         /\ UNCHANGED regs
